@@ -23,9 +23,9 @@ def gen(c):
                 lines.append('prng.feed obj=1 in=%s null_if_empty=%d' % (hx(pattern(rng, rng.choice([0, 1, 7, 8, 9, 32, 50]))), rng.randrange(2))); cost += 0.4
             elif a == 'reseed': lines.append('prng.reseed obj=1'); cost += 0.4
             elif a == 'save':
-                lines.append('prng.save obj=1 size=%d wres=%d erase_size=%d' % (rng.choice([64, 32, 31, 0, 4096]), rng.choice([32, 32, 31, 0, -1]), rng.choice([0, 4096]))); cost += 0.6
+                lines.append('prng.save obj=1 size=%d wres=%d erase_size=%d page=%d' % (rng.choice([64, 32, 31, 0, 4096]), rng.choice([32, 32, 31, 0, -1]), rng.choice([0, 4096]), rng.choice([1, 32, 64, 256]))); cost += 0.6
             elif a == 'load':
-                lines.append('prng.load obj=1 size=%d rres=%d wres=%d content=%s' % (rng.choice([64, 32, 16]), rng.choice([32, 32, 31, 0, -1]), rng.choice([32, -1, 5]), hx(pattern(rng, 40, 'rand')))); cost += 1.2
+                lines.append('prng.load obj=1 size=%d rres=%d wres=%d page=%d content=%s' % (rng.choice([64, 32, 16]), rng.choice([32, 32, 31, 0, -1]), rng.choice([32, -1, 5]), rng.choice([1, 32, 64, 256]), hx(pattern(rng, 40, 'rand')))); cost += 1.2
             elif a == 'poke':
                 lines.append('prng.poke obj=1 counter=%d' % rng.choice([16383, 16384, 16385, 16000, 40000, 0])); cost += 0.1
         lines.append('prng.free obj=1')
